@@ -121,6 +121,10 @@ func genC05For(entries []string) func(t *rapid.T) c05Case {
 		kinds := []string{"size", "size", "size", "truncate", "truncate", "random", "dup", "drop", "version", "flip", "none", "size2"}
 		if !c05IsResponse(c.Entry) && c.Entry != "readHeader" && c.Entry != "headersFromFrame" && c.Entry != "subscriber.callback" && c.Entry != "nats.sub" && c.Entry != "stomp.sub" {
 			kinds = append(kinds, "huge-name")
+			if c.Entry == "nats.server" {
+				// the reply buffer of the NATS server is the one that is bounded
+				kinds = append(kinds, "huge-name", "huge-name", "huge-name")
+			}
 		}
 		if c05Framed(c.Entry) {
 			kinds = append(kinds, "prefix-only")
@@ -138,7 +142,7 @@ func genC05For(entries []string) func(t *rapid.T) c05Case {
 		case "huge-name":
 			// a well-formed request for an unknown method whose name is so long that the
 			// UNKNOWN_METHOD reply (which repeats it) cannot fit a bounded reply buffer
-			n := rapid.SampledFrom([]int{300 * 1024, 520 * 1024, 700 * 1024, 1000 * 1024, 1048300}).Draw(t, "namelen")
+			n := rapid.SampledFrom([]int{300 * 1024, 520 * 1024, 700 * 1024, 1000 * 1024, 1048300, 1048300, 1048260}).Draw(t, "namelen")
 			hdrs := []KV{kv("_opid", "7"), kv("_cid", "cid-1")}
 			msg := thriftMessage(c.Proto, strings.Repeat("m", n), thrift.CALL, &strStruct{Name: "x_args", ID: 1, V: &val})
 			data = frameContent(hdrs, msg)
